@@ -223,10 +223,20 @@ def _dispatch_flags(m, f):
                     tested.add(x.id)
     cand = {"src": set(), "dest": set()}
     ctx_of = {}
+    # a local assigned exactly once (outside any `if`) stands for its value in a test: `has_dest = bool(getattr(event, 'dest_path', None))`
+    once = {}
+    for n in ast.walk(f):
+        if isinstance(n, ast.Assign) and len(n.targets) == 1 and isinstance(n.targets[0], ast.Name):
+            once.setdefault(n.targets[0].id, []).append(n)
+    once = {k: v[0].value for k, v in once.items() if len(v) == 1 and not any(isinstance(a, (ast.If, ast.For, ast.While, ast.Try)) for a in _ancestors(m, v[0]))}
+
+    def test_text(t):
+        from .. import pysym
+        return norm(ast.unparse(pysym.subst(t, once)))
     for n in ast.walk(f):
         if isinstance(n, ast.Assign) and len(n.targets) == 1 and isinstance(n.targets[0], ast.Name):
             ifs = [a for a in _ancestors(m, n) if isinstance(a, ast.If)]
-            ctx = " ".join(norm(ast.unparse(a.test)) for a in ifs)
+            ctx = " ".join(test_text(a.test) for a in ifs)
             kind = "dest" if "dest_path" in ctx else "src" if "src_path" in ctx else None
             if kind:
                 cand[kind].add(n.targets[0].id)
@@ -235,7 +245,7 @@ def _dispatch_flags(m, f):
     def tested_outside(name, kind):
         for n in ast.walk(f):
             if isinstance(n, ast.If) and any(isinstance(x, ast.Name) and x.id == name for x in ast.walk(n.test)):
-                ctx = " ".join(norm(ast.unparse(a.test)) for a in _ancestors(m, n) if isinstance(a, ast.If))
+                ctx = " ".join(test_text(a.test) for a in _ancestors(m, n) if isinstance(a, ast.If))
                 key = "dest_path" if kind == "dest" else "src_path"
                 if key not in ctx or (kind == "src" and "dest_path" in ctx):
                     return True
@@ -697,6 +707,83 @@ def r6_window_per_path(repo=None):
     return r
 
 
+def _r7_rejecting(m, hq):
+    """(date ok, time ok): helper hq returns a false value on every path where the datetime / timedelta construction raised"""
+    from .. import pyform, cbool
+    outs = pyform.outcomes(m.flat(hq).fn())
+    res = {}
+    for what, call_txt, grp in (("date", "datetime.datetime(", "year"), ("time", "datetime.timedelta(", "secs")):
+        ats = {a for o in outs for a in cbool.atoms(o.cond) if a.startswith("raises:") and call_txt in a and (grp in a or what == "date")}
+        if not ats:
+            res[what] = None
+            continue
+        ok = True
+        for o in outs:
+            for a in ats:
+                if not pyform._unsat(cbool.conj([o.cond, ("atom", a)])) and pyform._unsat(cbool.conj([o.cond, ("not", ("atom", a))])):
+                    if not (o.value is None or (isinstance(o.value, ast.Constant) and not o.value.value)):
+                        ok = False
+        res[what] = ok
+    return res
+
+
+def _r7_by_outcomes(r, m):
+    """The accepting method written as a predicate (`if not match or not self._valid(match): return False; return <window verdict>`):
+    every outcome of the (loop-free) method that can return a true value has a path condition that implies the validity helper."""
+    from .. import pyform, cbool, pybool
+    meths = m.methods(H)
+    valid = {}
+    for name in meths:
+        if not name.startswith("_") or name.startswith("__"):
+            continue
+        try:
+            res = _r7_rejecting(m, "%s.%s" % (H, name))
+        except AnalysisError:
+            continue
+        if res.get("date") or res.get("time"):
+            valid[name] = res
+    if not valid:
+        raise AnalysisError("%s: neither an accepting `if` nor a validity helper (false whenever the date / time construction raises) was found" % H)
+    preds = []
+    for name, f in meths.items():
+        if name in valid or not name.startswith("_") or name.startswith("__"):
+            continue
+        calls = [c for c in ast.walk(f) if isinstance(c, ast.Call) and isinstance(c.func, ast.Attribute) and isinstance(c.func.value, ast.Name)
+                 and c.func.value.id == "self" and c.func.attr in valid]
+        if calls:
+            preds.append((name, f, calls))
+    if len(preds) != 1:
+        raise AnalysisError("%s: the predicate that calls the validity helper was not found exactly once (%s)" % (H, [p_[0] for p_ in preds]))
+    name, f, calls = preds[0]
+    q = "%s.%s" % (H, name)
+    # the predicate decides the verdict of the matching method: it is called there with the result of a regex .match(...)
+    users = [mn for mn, mf in meths.items() if any(isinstance(c, ast.Call) and pyfront.call_name(c) == "self." + name and any(
+        isinstance(x, ast.Call) and isinstance(x.func, ast.Attribute) and x.func.attr == "match" for a_ in c.args for x in ast.walk(a_))
+        for c in ast.walk(mf))]
+    if not users:
+        raise AnalysisError("%s: no method hands a regex match to it" % q)
+    outs = pyform.outcomes(f)
+    accepting = [o for o in outs if o.value is not None and not (isinstance(o.value, ast.Constant) and not o.value.value)
+                 and not (isinstance(o.value, ast.Name) and o.value.id == "<raise>")]
+    if not accepting:
+        raise AnalysisError("%s: no outcome returns a true value" % q)
+    for what, example in (("date", "a file in `ch/2016-13-01T00-00-00/`"), ("time", "`rf@100000000000000.000.h5`")):
+        good = None
+        for c in calls:
+            if not valid[c.func.attr].get(what):
+                continue
+            if all(pyform._unsat(cbool.conj([o.cond, ("not", pybool.truth(c))])) for o in accepting):
+                good = c
+        site = "%s:%s %s (%s)" % (m.rel, f.lineno, q, what)
+        if good is not None:
+            r.ok(site, "every outcome that returns a true value implies `%s`, which is false whenever the %s built from the match raised" % (
+                norm(ast.unparse(good)), "datetime" if what == "date" else "timedelta"))
+        else:
+            raise AnalysisError("%s: a validity helper exists but the outcomes that accept were not shown to imply it for the %s" % (q, what))
+    r.guard(2)
+    return r
+
+
 def r7_not_a_time_is_rejected(repo=None):
     """'accepts an event for a path exactly when a listing ... would list a finalized file at that path', for the near-miss names of
     the quantifier too: a sub-directory name that fits the pattern but is not a date (month 13) and a file number that is not a
@@ -718,6 +805,8 @@ def r7_not_a_time_is_rejected(repo=None):
                                                (isinstance(x, ast.Return) and pyfront.const(x.value) is True) for x in iff.body) \
                     and any(isinstance(c, ast.Call) and isinstance(c.func, ast.Attribute) and c.func.attr == "match" for c in ast.walk(f)):
                 accept.append((name, f, iff))
+    if not accept:
+        return _r7_by_outcomes(r, m)
     if len(accept) != 1:
         raise AnalysisError("%s: the method that turns a regex match into acceptance was not found exactly once (%s)" % (H, [a[0] for a in accept]))
     name, f, iff = accept[0]
